@@ -34,6 +34,9 @@ Proved:
   release it resumes from where it stopped; with `C12.cbelt_travel_exact`: it arrives exactly (time stopped) later.
 * `cbelt_cancel_stall_counterexample` (kernel-checked, known finding KF-D27): a head item whose granted retrieval is
   cancelled waits unreserved while the non-accumulating belt keeps running and the next item reaches the exit.
+* `cbelt_accumulating_overlap_counterexample` (kernel-checked, known finding KF-D29): the accumulating stop plan works
+  on ceil-slots; items that are not slot-aligned end up less than one item length apart.  So "never overlapping" is FALSE
+  for the accumulating continuous conveyor as the code stands.
 NOT proved (lock-step + judge only): the accumulating plan (items advance until they touch the item ahead, no
   overlap, no overtaking) — `_get_belt_pattern`, the gap-based delays and `handle_new_item_during_interruption` are in
   the model and compared event by event with the code, but no theorem about positions is stated.
@@ -184,5 +187,18 @@ def d27 : List CBelt.Op :=
 theorem cbelt_cancel_stall_counterexample :
     let s := CBelt.run (CBelt.init { cap := 2, p1 := 2, acc := false }) d27
     s.arrivals.map (fun a => (a.q, a.t)) = [(0, 4), (1, 8)] ∧ s.getRes = [] ∧ s.ready.map (·.item.id) = [0, 1] := by decide
+
+/-- KF-D29 on the mirrored model: capacity 5, p1 = 4 (travel 20), ACCUMULATING.  Entries at 0, 9, 20; the head waits
+    unreserved from 20 to 41.  Item 1 (not slot-aligned) is stopped where it is, item 2 advances by whole slots: after
+    the release they reach the exit at 50 and 53 — less than one item length (4) of belt travel apart -/
+def d29 : List CBelt.Op :=
+  [.reservePut 0, .put 0 0 { id := 0 }, .ev, .ev, .adv 4, .ev, .ev, .adv 5, .reservePut 0, .put 0 1 { id := 1 },
+   .ev, .ev, .ev, .adv 4, .ev, .ev, .reservePut 0, .adv 7, .ev, .ev, .ev, .ev, .put 0 2 { id := 2 }, .ev, .ev,
+   .ev, .ev, .adv 4, .ev, .ev, .adv 4, .ev, .ev, .adv 1, .ev, .adv 11, .ev, .adv 1, .reserveGet 10, .get 10 3,
+   .ev, .ev, .ev, .adv 9, .ev, .ev, .ev, .reserveGet 10, .get 10 4, .ev, .ev, .ev, .adv 3, .ev, .ev, .ev, .adv 3]
+
+theorem cbelt_accumulating_overlap_counterexample :
+    (CBelt.run (CBelt.init { cap := 5, p1 := 4, acc := true }) d29).arrivals.map (fun a => (a.q, a.t)) = [(0, 20), (1, 50), (2, 53)] := by
+  decide +kernel
 
 end FsVerif.Props.C13
